@@ -1,4 +1,6 @@
 import GV.Model.Vrf
+import GV.Gen.VrfFacts
+import GV.Gen.VrfConsts
 /-!
 C38 — VRF proofs verify exactly when they are genuine.
 
@@ -119,6 +121,19 @@ theorem C38_partial [DecidableEq S] (hL : Laws P) :
     ∀ sk alpha, P.smallOrder (pkOf P sk) = false →
       verifyAndHash P (pkOf P sk) (prove P sk alpha).1 alpha = .ok (prove P sk alpha).2 :=
   fun sk alpha h => verify_prove P hL sk alpha h
+
+/-- Regenerated source facts: the order of the guards of `VerifyAndHash` (key decoding, small
+    order, core verification, hash), the helper calls of `verify` and `Prove`, the proof-length
+    check and the size constants as they stand in vrf/vrf.go on this run. -/
+theorem source_facts :
+    GV.Gen.VrfFacts.verifyAndHashConds = ["err != nil", "isSmallOrder", "err != nil", "!ok"] ∧
+    GV.Gen.VrfFacts.verifyConds = ["err != nil", "err != nil", "err != nil"] ∧
+    GV.Gen.VrfFacts.verifyCalls = ["decodeProofArrays", "hashToCurveElligator2", "hashPoints"] ∧
+    GV.Gen.VrfFacts.proveCalls = ["hashToCurveElligator2", "hashPoints", "ProofToHash"] ∧
+    GV.Gen.VrfFacts.decodeConds = ["len(pi) != ProofSize", "err != nil"] ∧
+    GV.Gen.VrfConsts.proofSize = 80 ∧ GV.Gen.VrfConsts.outputSize = 64 ∧
+    GV.Gen.VrfConsts.publicKeySize = 32 ∧ GV.Gen.VrfConsts.seedSize = 32 ∧ GV.Gen.VrfConsts.suite = 4 := by
+  decide
 
 /-! ### non-vacuity: the integers as a (toy) module over themselves -/
 def toy : Prims Int Int Int Int Int :=
